@@ -130,14 +130,23 @@ func (v *Verifier) structural(cfg PropConfig, sc StructuralCheck) []StructResult
 		var a struct {
 			Callee  string   `json:"callee"`
 			Allowed []string `json:"allowed"`
+			Roots   []string `json:"roots"` // optional: only callers reachable from these roots count
+			RootMethodNames []string `json:"root_method_names"`
 		}
 		json.Unmarshal(sc.Args, &a)
 		callee := v.funcsByKey[modulePath+"/"+a.Callee]
 		if callee == nil {
 			engineErr("structural %s: unknown function %s", sc.Name, a.Callee)
 		}
+		var reach map[*ssa.Function]bool
+		if len(a.Roots) > 0 || len(a.RootMethodNames) > 0 {
+			reach = v.reachableFrom(sc.Name, a.Roots, a.RootMethodNames)
+		}
 		var bad, seen []string
 		for _, fn := range v.moduleFunctions(false) {
+			if reach != nil && !reach[fn] {
+				continue
+			}
 			if v.callsFunction(fn, callee) {
 				k := shortKey(fn)
 				seen = append(seen, k)
@@ -203,6 +212,242 @@ func (v *Verifier) structural(cfg PropConfig, sc StructuralCheck) []StructResult
 		}
 		return []StructResult{{Name: name, Kind: "frame", Text: fmt.Sprintf("allocators(%s) within the allowed set", a.Type),
 			Detail: fmt.Sprintf("allocating functions: %s; not allowed: %s", strings.Join(seen, ", "), strings.Join(bad, ", ")), OK: len(bad) == 0}}
+	case "readers_reachable_subset":
+		// every function that reads one of the fields AND is reachable (call graph) from the roots is allowed
+		var a struct {
+			Fields  []string `json:"fields"`
+			Roots   []string `json:"roots"`
+			RootMethodNames []string `json:"root_method_names"`
+			Allowed []string `json:"allowed"`
+		}
+		json.Unmarshal(sc.Args, &a)
+		reach := map[*ssa.Function]bool{}
+		var work []*ssa.Function
+		for _, r := range a.Roots {
+			fn := v.funcsByKey[modulePath+"/"+r]
+			if fn == nil {
+				engineErr("structural %s: unknown root %s", sc.Name, r)
+			}
+			work = append(work, fn)
+		}
+		if len(a.RootMethodNames) > 0 {
+			for _, fn := range v.moduleFunctions(false) {
+				if fn.Signature.Recv() != nil {
+					for _, n := range a.RootMethodNames {
+						if fn.Name() == n {
+							work = append(work, fn)
+						}
+					}
+				}
+			}
+		}
+		nroots := len(work)
+		for len(work) > 0 {
+			f := work[len(work)-1]
+			work = work[:len(work)-1]
+			if reach[f] {
+				continue
+			}
+			reach[f] = true
+			if p := pkgOf(f); p == nil || !isModulePkg(p) || isTestPkgPath(p.Path()) {
+				continue // dependencies are not expanded (they cannot read module fields)
+			}
+			work = append(work, v.calleesOf(f)...)
+		}
+		var bad, seen []string
+		for _, fspec := range a.Fields {
+			i := strings.Index(fspec, "::")
+			t, err := v.ResolveType(fspec[:i], nil)
+			if err != nil {
+				engineErr("structural %s: %v", sc.Name, err)
+			}
+			for _, fn := range v.moduleFunctions(false) {
+				if !reach[fn] || !v.readsField(fn, t, fspec[i+2:]) {
+					continue
+				}
+				k := shortKey(fn)
+				seen = append(seen, k+" reads "+fspec)
+				if !matchAny(k, a.Allowed) {
+					bad = append(bad, k+" reads "+fspec)
+				}
+			}
+		}
+		sort.Strings(seen)
+		sort.Strings(bad)
+		return []StructResult{{Name: name, Kind: "frame", Text: fmt.Sprintf("readers of %s reachable from the context builders are within the allowed set", strings.Join(a.Fields, ", ")),
+			Detail: fmt.Sprintf("%d roots, %d reachable functions; readers: %s; not allowed: %s", nroots, len(reach), strings.Join(uniq(seen), "; "), strings.Join(uniq(bad), "; ")), OK: len(bad) == 0}}
+	case "return_slice":
+		// on the paths where the boolean parameter is true, the returned value depends only on the allowed leaves
+		var a struct {
+			Func    string `json:"func"`
+			Param   string `json:"when_param_true"`
+			AllowCallExtract []struct {
+				Call  string `json:"call"`
+				Index int    `json:"extract"`
+			} `json:"allowed_extracts"`
+			AllowCalls []string `json:"allowed_calls"` // calls that are pure functions of their (checked) arguments
+		}
+		json.Unmarshal(sc.Args, &a)
+		fn := v.funcsByKey[modulePath+"/"+a.Func]
+		if fn == nil {
+			engineErr("structural %s: unknown function %s", sc.Name, a.Func)
+		}
+		var param *ssa.Parameter
+		for _, p := range fn.Params {
+			if p.Name() == a.Param {
+				param = p
+			}
+		}
+		if param == nil {
+			engineErr("structural %s: no parameter %s", sc.Name, a.Param)
+		}
+		var bad []string
+		nret := 0
+		for _, b := range fn.Blocks {
+			ret, ok := b.Instrs[len(b.Instrs)-1].(*ssa.Return)
+			if !ok || guardedBy(b, param, 1) {
+				continue // returns only reachable when the parameter is false are not constrained
+			}
+			nret++
+			seenV := map[ssa.Value]bool{}
+			var walk func(val ssa.Value)
+			walk = func(val ssa.Value) {
+				if val == nil || seenV[val] {
+					return
+				}
+				seenV[val] = true
+				switch x := val.(type) {
+				case *ssa.Const, *ssa.Global, *ssa.Function, *ssa.Builtin:
+					return
+				case *ssa.Extract:
+					if call, ok := x.Tuple.(*ssa.Call); ok {
+						cn := ""
+						if sc := call.Call.StaticCallee(); sc != nil {
+							cn = sc.Name()
+						}
+						for _, al := range a.AllowCallExtract {
+							if al.Call == cn && al.Index == x.Index {
+								return
+							}
+						}
+					}
+					bad = append(bad, fmt.Sprintf("depends on %s (%s)", x.Name(), x.String()))
+				case *ssa.Call:
+					cn := ""
+					if sc := x.Call.StaticCallee(); sc != nil {
+						cn = sc.Name()
+					}
+					okc := false
+					for _, ac := range a.AllowCalls {
+						if ac == cn {
+							okc = true
+						}
+					}
+					if !okc {
+						bad = append(bad, fmt.Sprintf("depends on result of call %s", x.String()))
+						return
+					}
+					for _, arg := range x.Call.Args {
+						walk(arg)
+					}
+				case *ssa.Phi:
+					for _, e := range x.Edges {
+						walk(e)
+					}
+				case *ssa.Convert:
+					walk(x.X)
+				case *ssa.ChangeType:
+					walk(x.X)
+				case *ssa.MakeInterface:
+					walk(x.X)
+				case *ssa.Slice:
+					walk(x.X)
+				case *ssa.Alloc:
+					// array literal for varargs: everything stored into it
+					if x.Referrers() != nil {
+						for _, ref := range *x.Referrers() {
+							if ia, ok := ref.(*ssa.IndexAddr); ok && ia.Referrers() != nil {
+								for _, r2 := range *ia.Referrers() {
+									if st, ok := r2.(*ssa.Store); ok {
+										walk(st.Val)
+									}
+								}
+							}
+						}
+					}
+				case *ssa.BinOp:
+					walk(x.X)
+					walk(x.Y)
+				case *ssa.UnOp:
+					if _, isGlobal := x.X.(*ssa.Global); isGlobal {
+						return // package-level constant-like variable
+					}
+					bad = append(bad, fmt.Sprintf("depends on %s = %s", val.Name(), val.String()))
+				default:
+					bad = append(bad, fmt.Sprintf("depends on %s = %s", val.Name(), val.String()))
+				}
+			}
+			for _, r := range ret.Results {
+				walk(r)
+			}
+		}
+		if nret == 0 {
+			bad = append(bad, "no return point reachable with "+a.Param+" true")
+		}
+		return []StructResult{{Name: name, Kind: "dataflow", Text: fmt.Sprintf("%s: when %s is true the result depends only on the allowed leaves", a.Func, a.Param),
+			Detail: fmt.Sprintf("%d guarded return points; %s", nret, strings.Join(uniq(bad), "; ")), OK: len(bad) == 0}}
+	case "call_result_uses":
+		// in func, the value returned by calls of `callee` is only used as the receiver/argument of the allowed functions
+		var a struct {
+			Func    string   `json:"func"`
+			Callee  string   `json:"callee"`
+			Allowed []string `json:"allowed_uses"`
+		}
+		json.Unmarshal(sc.Args, &a)
+		fn := v.funcsByKey[modulePath+"/"+a.Func]
+		if fn == nil {
+			engineErr("structural %s: unknown function %s", sc.Name, a.Func)
+		}
+		var bad []string
+		ncalls := 0
+		for _, b := range fn.Blocks {
+			for _, in := range b.Instrs {
+				call, ok := in.(*ssa.Call)
+				if !ok {
+					continue
+				}
+				sc2 := call.Call.StaticCallee()
+				if sc2 == nil || sc2.Name() != a.Callee {
+					continue
+				}
+				ncalls++
+				if call.Referrers() == nil {
+					continue
+				}
+				for _, ref := range *call.Referrers() {
+					switch r := ref.(type) {
+					case *ssa.DebugRef:
+					case *ssa.Call:
+						rc := r.Call.StaticCallee()
+						okUse := false
+						if rc != nil {
+							for _, al := range a.Allowed {
+								if rc.Name() == al {
+									okUse = true
+								}
+							}
+						}
+						if !okUse {
+							bad = append(bad, "used by "+r.String())
+						}
+					default:
+						bad = append(bad, fmt.Sprintf("used by %v", ref))
+					}
+				}
+			}
+		}
+		return []StructResult{{Name: name, Kind: "dataflow", Text: fmt.Sprintf("%s: results of %s() are only passed to %s", a.Func, a.Callee, strings.Join(a.Allowed, "/")),
+			Detail: fmt.Sprintf("%d calls; %s", ncalls, strings.Join(bad, "; ")), OK: len(bad) == 0 && ncalls > 0}}
 	case "effects_exclude":
 		// the transitive write set of a function does not contain the given fields
 		var a struct {
@@ -323,4 +568,140 @@ func (v *Verifier) writesField(fn *ssa.Function, structT types.Type, field strin
 		}
 	}
 	return false
+}
+
+// guardedByTrue: block b is only reachable through the true edge of an `if param`.
+func guardedByTrue(b *ssa.BasicBlock, param *ssa.Parameter) bool { return guardedBy(b, param, 0) }
+
+// guardedBy: block b is only reachable through successor `succ` (0 = true edge, 1 = false edge) of an `if param`.
+func guardedBy(b *ssa.BasicBlock, param *ssa.Parameter, succ int) bool {
+	for d := b; d != nil; d = d.Idom() {
+		id := d.Idom()
+		if id == nil {
+			break
+		}
+		if ifi, ok := id.Instrs[len(id.Instrs)-1].(*ssa.If); ok && ifi.Cond == ssa.Value(param) {
+			if id.Succs[succ] == d && len(d.Preds) == 1 {
+				return true
+			}
+		}
+	}
+	return false
+}
+
+// calleesOf: functions fn may call or hand out as values (static calls, interface implementers in the
+// module, closures and function values, dynamic calls by signature).
+func (v *Verifier) calleesOf(fn *ssa.Function) []*ssa.Function {
+	var out []*ssa.Function
+	for _, b := range fn.Blocks {
+		for _, in := range b.Instrs {
+			var ops []*ssa.Value
+			for _, op := range in.Operands(ops) {
+				if op == nil || *op == nil {
+					continue
+				}
+				switch f := (*op).(type) {
+				case *ssa.Function:
+					out = append(out, f)
+				case *ssa.MakeClosure:
+					out = append(out, f.Fn.(*ssa.Function))
+				}
+			}
+			ci, ok := in.(ssa.CallInstruction)
+			if !ok {
+				continue
+			}
+			cc := ci.Common()
+			if cc.IsInvoke() {
+				for _, t := range v.Implementers(cc.Value.Type()) {
+					if isTestType(t) {
+						continue
+					}
+					sel := v.prog.MethodSets.MethodSet(t).Lookup(cc.Method.Pkg(), cc.Method.Name())
+					if sel == nil {
+						continue
+					}
+					if m := v.prog.MethodValue(sel); m != nil {
+						out = append(out, m)
+					}
+				}
+				continue
+			}
+			if cc.StaticCallee() == nil {
+				if _, isB := cc.Value.(*ssa.Builtin); !isB {
+					v.buildAddrTaken()
+					out = append(out, effIdx.addrTaken[sigKey(cc.Signature())]...)
+				}
+			}
+		}
+	}
+	return out
+}
+
+func (v *Verifier) readsField(fn *ssa.Function, structT types.Type, field string) bool {
+	for _, b := range fn.Blocks {
+		for _, in := range b.Instrs {
+			switch x := in.(type) {
+			case *ssa.FieldAddr:
+				t := x.X.Type().Underlying().(*types.Pointer).Elem()
+				if !types.Identical(t, structT) || t.Underlying().(*types.Struct).Field(x.Field).Name() != field {
+					continue
+				}
+				if x.Referrers() == nil {
+					continue
+				}
+				for _, ref := range *x.Referrers() {
+					if st, ok := ref.(*ssa.Store); ok && st.Addr == ssa.Value(x) {
+						continue
+					}
+					if _, ok := ref.(*ssa.DebugRef); ok {
+						continue
+					}
+					return true
+				}
+			case *ssa.Field:
+				t := x.X.Type()
+				if types.Identical(t, structT) && t.Underlying().(*types.Struct).Field(x.Field).Name() == field {
+					return true
+				}
+			}
+		}
+	}
+	return false
+}
+
+func (v *Verifier) reachableFrom(checkName string, roots []string, methodNames []string) map[*ssa.Function]bool {
+	reach := map[*ssa.Function]bool{}
+	var work []*ssa.Function
+	for _, r := range roots {
+		fn := v.funcsByKey[modulePath+"/"+r]
+		if fn == nil {
+			engineErr("structural %s: unknown root %s", checkName, r)
+		}
+		work = append(work, fn)
+	}
+	if len(methodNames) > 0 {
+		for _, fn := range v.moduleFunctions(false) {
+			if fn.Signature.Recv() != nil {
+				for _, n := range methodNames {
+					if fn.Name() == n {
+						work = append(work, fn)
+					}
+				}
+			}
+		}
+	}
+	for len(work) > 0 {
+		f := work[len(work)-1]
+		work = work[:len(work)-1]
+		if reach[f] {
+			continue
+		}
+		reach[f] = true
+		if p := pkgOf(f); p == nil || !isModulePkg(p) || isTestPkgPath(p.Path()) {
+			continue
+		}
+		work = append(work, v.calleesOf(f)...)
+	}
+	return reach
 }
